@@ -288,12 +288,64 @@ pub fn strategy() -> impl Strategy<Value = Case> {
         .prop_map(|(base, vary, short)| Case { base, vary, short })
 }
 
+#[derive(Debug, Clone, Serialize, Deserialize)]
+pub struct GenCase {
+    pub data: Vec<u8>,
+}
+
+/// the same text obtained in two ways (generator / parser) must be equal, hash equally and order as equal,
+/// and order consistently against a text that extends it
+pub fn eval_generated(case: &GenCase, st: &mut Stats) -> Result<(), String> {
+    let mut g = ssdeep::Generator::new();
+    must("update", || {
+        g.update(&case.data);
+    })?;
+    let a = must("finalize", || g.finalize())?.map_err(|e| format!("finalize failed: {:?}", e))?;
+    let text = a.to_string();
+    let b: ssdeep::RawFuzzyHash = must("parse", || text.parse())?.map_err(|e| format!("own text rejected: {:?}", e))?;
+    ensure!(a == b, "generated hash != parsed {}", text);
+    ensure_eq!(fixed_hash(&a), fixed_hash(&b), "Hash output of generated vs parsed {}", text);
+    ensure_eq!(must("cmp", || a.cmp(&b))?, Ordering::Equal, "cmp of generated vs parsed {}", text);
+    if a.block_hash_2_len() < 32 {
+        let ext: ssdeep::RawFuzzyHash = must("parse", || format!("{}B", text).parse())?.map_err(|e| format!("extended text rejected: {:?}", e))?;
+        ensure_eq!(must("cmp", || a.cmp(&ext))?, Ordering::Less, "generated {} must sort before its extension", text);
+        let mut v = vec![ext, a, b];
+        must("sort", || v.sort())?;
+        ensure!(v[2] == ext, "sort() puts the extension of {} before it", text);
+    }
+    let l = must("finalize_without_truncation", || g.finalize_without_truncation())?.map_err(|e| format!("{:?}", e))?;
+    let lt = l.to_string();
+    let lb: ssdeep::LongRawFuzzyHash = must("parse", || lt.parse())?.map_err(|e| format!("own text rejected: {:?}", e))?;
+    ensure!(l == lb && l.cmp(&lb) == Ordering::Equal, "long generated hash vs parsed {}: ==/cmp", lt);
+    st.nontrivial(oracle::fingerprint(&case.data));
+    Ok(())
+}
+
 pub fn subchecks(tier: Tier) -> Vec<SubCheck> {
-    vec![generated(
+    let gen_cases: Vec<GenCase> = {
+        let mut v = vec![vec![], vec![0u8; 7], vec![0u8; 100], vec![0u8; 5000]];
+        for n in [1usize, 6, 13, 200, 3000] {
+            let mut d = vec![0u8; n];
+            oracle::words::SplitMix(n as u64).fill(&mut d);
+            v.push(d.clone());
+            d.extend_from_slice(&[0u8; 7]);
+            v.push(d);
+        }
+        v.into_iter().map(|data| GenCase { data }).collect()
+    };
+    vec![
+      crate::engine::listed(
+        "generated_vs_parsed",
+        "hashes returned by the generator (empty input, zero runs, inputs ending in seven zero bytes so that the rolling hash is 0, short noise) against the objects parsed from their own text: ==, equal Hash output, cmp == Equal, sorts before its one-character extension",
+        gen_cases,
+        eval_generated,
+      ),
+      generated(
         "eq_hash_ord",
         "families of 3..5 close hashes from one base (prefixes, trailing 'A' = symbol 0, one changed symbol, neighbouring block size, stretched runs = same normalised part, or fresh), all four plain types and both dual types; == <=> equal texts, equal => equal Hash (two fixed hashers), cmp = reference lexicographic order, antisymmetry, cmp==Equal <=> ==, sort differential; duals: order of the normalised parts when they differ, total/deterministic/transitive otherwise; non-trivial = a pair in prefix / trailing-'A' relation or sharing the normalised part; distinct by the family's texts",
         tier.pick(800_000, 10_000_000),
         strategy,
         eval,
-    )]
+      ),
+    ]
 }
